@@ -6,6 +6,7 @@ use crate::{
     path::{Component, Path},
     pointer::{self, Pointer},
     push_pop::PushPopType,
+    story_error::StoryError,
 };
 
 pub struct Divert {
@@ -84,40 +85,34 @@ impl Divert {
         }
     }
 
-    pub fn get_target_pointer(self: &Rc<Self>) -> Pointer {
+    pub fn get_target_pointer(self: &Rc<Self>) -> Result<Pointer, StoryError> {
         let target_pointer_null = self.target_pointer.borrow().is_null();
         if target_pointer_null {
-            let target_obj =
-                Object::resolve_path(self.clone(), self.target_path.borrow().as_ref().unwrap())
-                    .obj
-                    .clone();
+            let target_path = self.target_path.borrow().clone().ok_or_else(|| {
+                StoryError::InvalidStoryState("Divert has no target path.".to_owned())
+            })?;
 
-            if self
-                .target_path
-                .borrow()
-                .as_ref()
-                .unwrap()
-                .get_last_component()
-                .unwrap()
-                .is_index()
-            {
+            let last_component = target_path.get_last_component().cloned().ok_or_else(|| {
+                StoryError::InvalidStoryState("Divert target path is empty.".to_owned())
+            })?;
+
+            let target_obj = Object::resolve_path(self.clone(), &target_path).obj.clone();
+
+            if let Some(index) = last_component.index {
                 self.target_pointer.borrow_mut().container = target_obj.get_object().get_parent();
-                self.target_pointer.borrow_mut().index = self
-                    .target_path
-                    .borrow()
-                    .as_ref()
-                    .unwrap()
-                    .get_last_component()
-                    .unwrap()
-                    .index
-                    .unwrap() as i32;
+                self.target_pointer.borrow_mut().index = index as i32;
             } else {
-                let c = target_obj.into_any().downcast::<Container>();
-                self.target_pointer.replace(Pointer::start_of(c.unwrap()));
+                let c = target_obj.into_any().downcast::<Container>().map_err(|_| {
+                    StoryError::InvalidStoryState(format!(
+                        "Divert target is not a container: {}",
+                        target_path
+                    ))
+                })?;
+                self.target_pointer.replace(Pointer::start_of(c));
             }
         }
 
-        self.target_pointer.borrow().clone()
+        Ok(self.target_pointer.borrow().clone())
     }
 
     pub fn get_target_path(self: &Rc<Self>) -> Option<Path> {
@@ -127,7 +122,11 @@ impl Divert {
         match current_target {
             Some(target_path) => {
                 if target_path.is_relative() {
-                    let target_obj = self.get_target_pointer().resolve();
+                    // a target that cannot be resolved keeps its relative path
+                    let target_obj = self
+                        .get_target_pointer()
+                        .ok()
+                        .and_then(|pointer| pointer.resolve());
 
                     if let Some(target_obj) = target_obj {
                         let resolved = Object::get_path(target_obj.as_ref());
